@@ -606,21 +606,21 @@ func (bridge *ExprBridge) convertLikeToFunction(field, pattern string) string {
 		// %pattern% -> contains操作符（但不是单独的%）
 		inner := strings.Trim(pattern, "%")
 		if inner == "" {
-			// %% 表示匹配任何字符串
-			return "true"
+			// %% 表示匹配任何字符串（NULL 除外：NULL LIKE 任何模式都不为真）
+			return fmt.Sprintf("(%s != nil)", field)
 		}
 		return fmt.Sprintf("%s contains '%s'", field, inner)
 	} else if strings.HasPrefix(pattern, "%") && len(pattern) > 1 {
 		// %pattern -> endsWith操作符
-		suffix := strings.TrimPrefix(pattern, "%")
+		suffix := strings.TrimLeft(pattern, "%") // a run of leading % is one wildcard
 		return fmt.Sprintf("%s endsWith '%s'", field, suffix)
 	} else if strings.HasSuffix(pattern, "%") && len(pattern) > 1 {
 		// pattern% -> startsWith操作符
-		prefix := strings.TrimSuffix(pattern, "%")
+		prefix := strings.TrimRight(pattern, "%") // a run of trailing % is one wildcard
 		return fmt.Sprintf("%s startsWith '%s'", field, prefix)
 	} else if pattern == "%" {
-		// 单独的%匹配任何字符串
-		return "true"
+		// 单独的%匹配任何字符串（NULL 除外）
+		return fmt.Sprintf("(%s != nil)", field)
 	} else if strings.Contains(pattern, "%") || strings.Contains(pattern, "_") {
 		// 复杂模式（如prefix%suffix）或包含单字符通配符，使用自定义的like_match函数
 		return fmt.Sprintf("like_match(%s, '%s')", field, pattern)
